@@ -1,7 +1,9 @@
 package props
 
 import (
+	"fmt"
 	"golang.org/x/tools/go/ssa"
+	"strings"
 
 	"verif/checker/an"
 )
@@ -69,6 +71,42 @@ func runC42(c *an.Ctx) {
 			}
 			c.Check(n >= 1, "fresh-overlay|"+an.FuncName(fn), "a pre-execution root executes on an overlay it creates itself (overlaydb.NewOverlayDB reached by static calls from its body, depth <= 2)",
 				c.P.Rel(fn.Pos()), "no call to overlaydb.NewOverlayDB in the body: execution would share an overlay with block processing")
+			// ... and on nothing else: every CacheDB the root handles is, on every path, storage.NewCacheDB over an overlay
+			// created in this very call (through private helpers such as GetCacheDB) - not an object taken from a pool,
+			// a field or a channel that block processing may also hold
+			nc, bad := 0, ""
+			for _, b := range fn.Blocks {
+				for _, in := range b.Instrs {
+					v, isV := in.(ssa.Value)
+					if !isV || !strings.HasSuffix(v.Type().String(), "smartcontract/storage.CacheDB") {
+						continue
+					}
+					switch in.(type) {
+					case *ssa.Call, *ssa.Phi, *ssa.Extract, *ssa.UnOp:
+					default:
+						continue
+					}
+					nc++
+					for _, d := range an.Deref(fn, v) {
+						for _, s := range an.AllSources(d) {
+							k, isCall := s.(*ssa.Call)
+							if !isCall || k.Call.StaticCallee() == nil || k.Call.StaticCallee().Name() != "NewCacheDB" {
+								bad = fmt.Sprintf("%s at %s is not a CacheDB created here (it comes from %s)", v.Name(), c.P.Rel(in.Pos()), s.String())
+								continue
+							}
+							for _, od := range an.Deref(fn, k.Call.Args[0]) {
+								for _, os := range an.AllSources(od) {
+									ok2, isC2 := os.(*ssa.Call)
+									if !isC2 || ok2.Call.StaticCallee() == nil || ok2.Call.StaticCallee().Name() != "NewOverlayDB" {
+										bad = fmt.Sprintf("the cache at %s is not built over a new overlay (over %s)", c.P.Rel(k.Pos()), os.String())
+									}
+								}
+							}
+						}
+					}
+				}
+			}
+			c.Check(bad == "" && nc >= 1, "fresh-cache|"+an.FuncName(fn), "every cache a pre-execution root executes on is created in that call over a new overlay of the committed state (never a pooled or shared object)", c.P.Rel(fn.Pos()), bad)
 		}
 	}
 }
